@@ -14,7 +14,7 @@ add("C10",
     "DESIGN.md §4 C10")
 
 add("C09",
-    "exhaustive product-automaton comparison (bisimulation) of loaded vs freshly generated LR(1) tables + production-set equality with doc/grammar.md, plus Hypothesis-seeded differential parsing of generated/mutated token sequences",
+    "exhaustive product-automaton comparison (bisimulation) of loaded vs freshly generated LR(1) tables + production-set equality with doc/grammar.md, plus Hypothesis-seeded differential parsing of generated/mutated token sequences through the tables and through the public entry points (parse_module / parse_expression, same tokens at moved source positions)",
     "The finite part is enumerated completely: every reachable state pair x every symbol must agree on action kind, reduce rule, error message (after default fallback), expected-token set and goto definedness, for the module and expression parsers; the generated part cross-checks ParseResults on ~10^3-10^4 token sequences.",
     "Trusts: the fresh generator as reference (C08 checks it); isomorphism of canonical LR(1) automata; my reader of doc/grammar.md's production listing.",
     "DESIGN.md §4 C09")
@@ -26,25 +26,25 @@ add("C08",
     "DESIGN.md §4 C08")
 
 add("C11",
-    "property-based testing: seeded generators (noisy renderings of random grammar derivations covering every production, corpus files and parse-preserving mutations) x indent widths, against round-trip (two-sided token equivalence, IR equality), idempotence and self-check-agreement oracles; ddmin shrinking",
+    "property-based testing: seeded generators (noisy renderings of random grammar derivations covering every production, corpus files and parse-preserving mutations) x indent widths, against round-trip (two-sided token equivalence, IR equality), idempotence and self-check-agreement oracles; the emboss-format program on several files in place; ddmin shrinking",
     "Generated-input search over parseable texts x indent widths 1..8 for exceptions, token/IR changes, unparseable output, non-idempotence and self-check disagreement; ~3*10^3 (quick) to ~3*10^5 (thorough) (text,width) cases.",
     "Trusts: tokenizer/parser/module_ir.build_ir as the meaning of 'parses to the same module' (they are checked by C10/C09/C08).",
     "DESIGN.md §4 C11")
 
 add("C17",
-    "metamorphic/differential property-based testing over schedules: generated and literal source sets compiled in fresh subprocesses under 6-8 PYTHONHASHSEEDs x batch orders x repetition, a Hypothesis RuleBasedStateMachine for in-process histories, and a CLI sample (embossc vs front|back, swapped import dirs); oracle = byte equality",
+    "metamorphic/differential property-based testing over schedules: generated and literal source sets compiled in fresh subprocesses under 6-8 PYTHONHASHSEEDs x batch orders x repetition, a Hypothesis RuleBasedStateMachine for in-process histories (compiler caches left alone; literal A-B-A history), and a CLI sample (embossc vs front|back incl. back-end-only rejections, swapped import dirs, reuse of an output directory across fresh processes); oracle = byte equality",
     "Searches for any dependence of diagnostics, IR JSON or header on hash seed, batch order, repetition, import-dir order or process split, over ~150 (quick) to ~700 (thorough) source sets x 8-10 schedules plus stateful histories; cannot exclude dependence on seeds/inputs not tried.",
     "Trusts: equality of formatted strings; anonymous-field numbering is canonicalised only where several modules share a process (as the property allows).",
     "DESIGN.md §4 C17")
 
 add("C18",
-    "round-trip property-based testing: IRs of corpus, accepted corpus mutations and generated modules at every stop_before_step through to_json/from_json with ==, a type-strict field walker, re-serialisation and header equality; CLI two-program path vs embossc on a sample",
+    "round-trip property-based testing: IRs of corpus, accepted corpus mutations and generated modules at every stop_before_step through to_json/from_json with ==, a type-strict field walker, re-serialisation and header equality; CLI two-program path vs embossc on a sample with and without --[no-]cc-enum-traits; source sets whose modules define the same names",
     "Checks from_json(to_json(ir)) == ir (also type-strictly), to_json idempotence and header(ir) == header(reread ir) for ~10^3 (quick) to ~10^4 (thorough) IRs incl. all intermediate pipeline stages; the two real programs are compared with embossc on a sample.",
     "Trusts: the IR classes' own == (cross-checked by an independent walker over field specs); corpus + generators as the space of 'IRs the front end produces'.",
     "DESIGN.md §4 C18")
 
 add("C01",
-    "differential property-based testing: generated modules (embgen layout generator) compiled by the real compiler and g++, executed on generated buffers (all prefix lengths, garbage/small/boundary contents, parameter values) against an independent reference interpreter (embref) + metamorphic prefix-monotonicity",
+    "differential property-based testing: generated modules (embgen layout generator) compiled by the real compiler and g++, executed on generated buffers (all prefix lengths of garbage/small/boundary contents, near-Ok buffers found by search with the reference and damaged one byte at a time, extreme values of multi-byte fields, parameter values) against an independent reference interpreter (embref) + metamorphic prefix-monotonicity; always-on switch and stride families",
     "Every front-end pass, the back end, the runtime and g++ are in the loop against an oracle that shares no code with them; ~50 modules x ~100 views (quick) to ~650 x ~150 (thorough). Finds wrong offsets/conditions/decodes/size/Ok logic on the explored shapes; says nothing about shapes the generator does not emit (listed in DESIGN §4 C01).",
     "Trusts: embref as an encoding of the documentation (every disagreement is triaged, DESIGN §3); g++ 12 on x86-64; arrays on truncated buffers are a recorded known finding.",
     "DESIGN.md §4 C01")
@@ -86,19 +86,19 @@ add("C02",
     "DESIGN.md §4 C02")
 
 add("C03",
-    "differential property-based testing of writes: generated modules with every writable field kind (struct/bits/anonymous/nested, aliases, invertible virtuals, [requires]), random and truncated buffers, boundary values and 1-6 step write sequences; CouldWriteValue / TryToWrite / full buffer / read-back compared with the embref write model",
+    "differential property-based testing of writes: generated modules with every writable field kind (struct/bits/anonymous/nested, aliases, invertible virtuals, [requires]), random and truncated buffers, boundary values and 1-6 step write sequences through plain and MakeAligned views; CouldWriteValue / TryToWrite / full buffer / read-back compared with the embref write model",
     "~30 modules x ~150 write sequences (quick) to ~400 x 400 (thorough): exact accept/reject boundaries for all widths, byte-exact neighbour preservation in read-modify-write, nothing changed on failure, algebraic inverse of write inference reads back.",
     "Trusts: embref write model; values passed within the argument type of each method (Bcd/enum/virtual methods take their ValueType by value); writability of virtual fields read from the compiler's IR.",
     "DESIGN.md §4 C03")
 
 add("C19",
-    "property-based testing: generated enums (boundary values, duplicates, is_signed / maximum_bits / enum_case at every level, nested and inline) compiled with g++ and probed through a generated driver; every probe result compared with the value computed directly from the definition",
+    "property-based testing: generated enums (boundary values, duplicates, is_signed / maximum_bits / enum_case at every level, nested and inline) compiled with g++ and probed through a generated driver; every probe result (names, values, known-ness, field reads, field writes, text input by number and by name) compared with the value computed directly from the definition",
     "~45 modules x ~5 enums x ~60 probes (quick), 12x more in thorough: underlying type signedness/width, each enumerator per spelling, name->value only for declared Emboss names, value->first declared name or null, EnumIsKnown, operator<< (numeric rendering not compared for 8-bit types), enum field reads of named/unnamed raw values.",
     "Trusts: the model->expectation mapping written from cpp-reference.md / language-reference.md; g++ 12; signed enums in fields narrower than their C++ type are a recorded known finding.",
     "DESIGN.md §4 C19")
 
 add("C20",
-    "differential property-based testing: layout-generator structs compiled with g++; buffer pairs (identical, single-bit flips in covered and padding bytes, different lengths, not-Ok sources, short destinations) and overlapping windows of one allocation; Equals (both directions) and TryToCopyFrom (result, destination bytes, Ok) compared with embref's logical equality / copy model",
+    "differential property-based testing: layout-generator structs compiled with g++; buffer pairs (identical, every single-bit flip of Ok buffers, different lengths, not-Ok sources, short destinations) and overlapping windows of one allocation; Equals (both directions) and TryToCopyFrom (result, destination bytes, Ok) compared with embref's logical equality / copy model",
     "~40 modules x ~120 pair commands (quick) to ~500 modules (thorough): Equals <=> same presence and equal present physical fields recursively, symmetric, blind to padding; TryToCopyFrom succeeds exactly when source Ok and destination long enough, copies exactly the source's size with memmove semantics.",
     "Trusts: embref (already validated against the tree by C01); only parameterless top-level structs are paired.",
     "DESIGN.md §4 C20")
@@ -110,7 +110,7 @@ add("C06",
     "DESIGN.md §4 C06")
 
 add("C04",
-    "sanitizer-instrumented property-based testing / fuzzing: generated modules (layout, write and copy/equals generators) compiled with clang++ -O1 -fsanitize=address,undefined and runtime checks on; generated scripts of checked API calls (observation on every prefix of garbage buffers incl. aligned views, partial text output and read-back, token-soup UpdateFromText, boundary-value write sequences, copies between short/overlapping windows) on exact-size heap buffers; oracle = no sanitizer report / CHECK abort / signal",
+    "sanitizer-instrumented property-based testing + coverage-guided fuzzing (libFuzzer targets generated from the IR, ASan+UBSan): generated modules (layout, write and copy/equals generators) compiled with clang++ -O1 -fsanitize=address,undefined and runtime checks on; generated scripts of checked API calls (observation on every prefix of garbage buffers incl. aligned views, partial text output and read-back, token-soup UpdateFromText, boundary-value write sequences, copies between short/overlapping windows) on exact-size heap buffers; oracle = no sanitizer report / CHECK abort / signal",
     "~30 modules x ~120 commands (quick), ~320 modules in thorough; any out-of-bounds access, executed UB (overflow, bad shift, misaligned typed access, null dereference) or tripped runtime check on the explored scripts is reported with the command prefix as replay.",
     "Trusts: ASan/UBSan as the memory-safety and UB oracle (UB that does not execute is invisible); clang 14 on x86-64 only.",
     "DESIGN.md §4 C04")
